@@ -1,4 +1,5 @@
 import St4sd.Model.Resolve
+import St4sd.Model.TreeFlatten
 /-!
 # C04 — witness: the override of ANOTHER platform can break the resolution
 
@@ -33,5 +34,42 @@ theorem resolves_on_q :
 /-- … on `default`, whose layers never mention `qonly`, the resolution fails because of `q`'s override. -/
 theorem foreign_override_breaks_default :
     resolve dW defaultName 0 ['c'] false 60 = .error (.unknownVariable "qonly".toList) := by rfl
+
+/-! ## witness: the fold binds references of global variables EARLY
+
+`instance()` interpolates the global variables in the global scope (and the stage variables in global+stage
+scope) once and for all.  A global variable `g: %(v)s-g` therefore keeps the GLOBAL value of `v` in the
+flattened description even for a component whose stage (or own) section re-defines `v`; the un-flattened
+description resolves `g` with the component's layered variables (`v` from the stage).  The two views of the
+same workflow disagree - the layering clause of the property ("layer, THEN substitute") holds for the
+un-flattened view only.  This is why `flatten_preserves_resolution` is stated for the layering skeleton and
+`preevaluation_preserves_resolution` / `flatten_strict_pass_is_preevaluation` need the no-shadowing
+hypothesis.  Replayed on the real code by harness/c04.py (stream `shadowed-reference`). -/
+
+def dE : Desc :=
+  { platforms := [defaultName], blueprint := [],
+    variables := [(defaultName, { global := [(['v'], .str "dg".toList), (['g'], .str "%(v)s-g".toList)],
+                                  stages := [(0, [(['v'], .str "ds".toList)])] })],
+    comps := [⟨0, ['c'],
+      [("stage".toList, .int 0), ("name".toList, .str ['c']),
+       ("command".toList, .dict [("arguments".toList, .str "%(g)s".toList)]),
+       ("variables".toList, .dict [])]⟩] }
+
+def argumentsOf (r : Except Err Val) : St4sd.Str.S :=
+  match r with
+  | .ok v => (match lookupPath ["command".toList, "arguments".toList] v with
+    | some (.str s) => s
+    | _ => [])
+  | .error _ => []
+
+/-- un-flattened: the reference inside the global variable sees the stage value … -/
+theorem unflattened_binds_late :
+    argumentsOf (resolve dE defaultName 0 ['c'] false 60) = "ds-g".toList := by decide +kernel
+
+/-- … flattened (what the runtime executes): it was bound to the global value when the description was folded. -/
+theorem flattened_binds_early :
+    (match flatten 60 dE defaultName false true with
+     | .ok fd => argumentsOf (resolve fd defaultName 0 ['c'] false 60)
+     | .error _ => []) = "dg-g".toList := by decide +kernel
 
 end St4sd.C04.Witness
